@@ -1326,7 +1326,11 @@ def expand_operator(
     for i, ind in enumerate(rest_pos):
         new_order[ind] = rest_qubits[i]
     id_list = [identity(dims[i]) for i in rest_pos]
-    return tensor([oper] + id_list).permute(new_order)
+    out = tensor([oper] + id_list).permute(new_order)
+    if parse_version(qutip.__version__) >= parse_version("5.dev"):
+        # kron with the (Dia) identities and permute do not keep the data type
+        out = out.to(dtype)
+    return out
 
 
 def gate_sequence_product(
